@@ -233,6 +233,20 @@ def shard(ctx):
                     if matches("error", code) is False:
                         ctx.violation("validate:missing-path:got-%s" % code, "missing path gives exit %s: %s" % (code, argv), {"kind": "argv", "argv": argv, "expected": "error"})
 
+            # unusable option combinations are errors too: never the exit code of a verdict
+            if idx % 10 == 5:
+                R, D = ["-r", rp[0]], ["-d", dp[0]]
+                for argv in (["validate"] + R + D + ["--structured"], ["validate"] + R + D + ["--structured", "-S", "all", "-o", "json"], ["validate"] + R + D + ["-o", "junit"],
+                             ["validate"] + R + D + ["-o", "sarif"], ["validate", "-r"] + D, ["validate"] + D, ["validate"] + R + D + ["-a", "-m"],
+                             ["validate"] + R + D + ["--structured", "-S", "none", "-o", "json", "-v"], ["validate"] + R + D + ["-S", "bogus"],
+                             ["test"] + R, ["test", "-t", dp[0]], ["test"] + R + ["-t", dp[0], "-o", "sarif"], ["test"] + R + ["-t", dp[0], "-o", "json", "-v"]):
+                    code, out, err = core.run_cli(argv)
+                    ctx.res.cases += 1
+                    ctx.res.extra.setdefault("exit_class_x_mode", set()).add("error:illegal-arguments")
+                    ctx.res.distinct.add(("illegal-arguments", argv[0], len(argv), code))
+                    if matches("error", code) is False:
+                        ctx.violation("%s:illegal-arguments:got-%s" % (argv[0], code), "unusable option combination gives exit %s: %s" % (code, argv[1:]), {"kind": "argv", "argv": argv, "expected": "error"})
+
         # ------------------------------------------------------------------ test command
         ntest = 60 if ctx.quick else 1500
         for t in range(ntest):
